@@ -87,7 +87,10 @@ Obs(M, dp) ==
           adj |-> ad, b |-> b, adjb |-> ab, adjtb |-> atb,
           tolA |-> TolA, tolX |-> TolX(M, ab), tolXT |-> TolX(M, atb),
           tolDet |-> TolA * Len(M) * Norm1(ad) + AbsI(d),
-          condLo |-> <<1, 1>>, condHi |-> <<NormInf(M) * NormInf(ad), AbsI(d)>>]
+          \* infinity-norm estimate: the estimator works on A^-T started at e/n, so
+          \*    |A|_inf |A^-T e|_1 / n  <=  Cond,   and  Cond <= cond_inf(A) when anorm = |A|_inf (after Factorize)
+          condLo |-> <<NormInf(M) * SumSeq([j \in 1..Len(M) |-> AbsI(SumSeq([i \in 1..Len(M) |-> ad[i][j]]))]), Len(M) * AbsI(d)>>,
+          condHi |-> <<NormInf(M) * NormInf(ad), AbsI(d)>>]
 Hdr == [k |-> "hdr", machine |-> "lu", maxN |-> MaxN, maxEntry |-> MaxEntry, unitExp |-> UnitExp,
         condSlackExp |-> CondSlackExp,
         other |-> [n \in 1..MaxN |-> [i \in 1..n |-> [j \in 1..n |-> IF i = j THEN 3 ELSE IF i < j THEN 1 ELSE 0]]]]
